@@ -351,6 +351,37 @@ def rename_sig(canon: str) -> str:
     return c
 
 
+def _sig_role(name: str, fn: ast.FunctionDef, depth: int = 0, seen=()) -> str | None:
+    """"N" / "D" for a local that is not named after its role but only ever holds a numerator (denominator): every assignment
+    to it, normalised and renamed, mentions N (D) and nothing else signature-like.  (`sig__0` of a split tuple, `n` of `n, d = ...`)"""
+    if depth > 4 or name in seen:
+        return None
+    roles = set()
+    for a in ast.walk(fn):
+        if isinstance(a, ast.Assign) and len(a.targets) == 1 and isinstance(a.targets[0], ast.Name) and a.targets[0].id == name:
+            try:
+                c = Normaliser(atom_hook=field_hook({})).norm(a.value)
+            except Exception:
+                return None
+            atoms = set(c.atoms())
+            got = set()
+            for at in atoms:
+                r = rename_sig(at)
+                if r in ("N", "D"):
+                    got.add(r)
+                elif re.fullmatch(r"\w+", at) and not at.isdigit():
+                    sub = _sig_role(at, fn, depth + 1, seen + (name,))
+                    if sub is None:
+                        return None
+                    got.add(sub)
+                else:
+                    return None
+            if len(got) != 1:
+                return None
+            roles |= got
+    return next(iter(roles)) if len(roles) == 1 else None
+
+
 def capacity_sites(p: Program):
     """All assignments to a `*capacity_total*` variable in the tokeniser class: [(func qualname, node, neutral canon)]."""
     out = []
@@ -358,8 +389,20 @@ def capacity_sites(p: Program):
         fi = p.func(q)
         for n in ast.walk(fi.node):
             if isinstance(n, ast.Assign) and isinstance(n.targets[0], ast.Name) and "capacity_total" in n.targets[0].id:
-                nz = Normaliser(atom_hook=field_hook({}))
-                c = nz.norm(n.value)
                 wrapped = isinstance(n.value, ast.Call) and isinstance(n.value.func, ast.Name) and n.value.func.id == "int"
-                out.append((q, n, rename_sig(c.canon()), wrapped))
+                out.append((q, n, neutral_capacity(n.value, fi.node), wrapped))
     return out
+
+
+def neutral_capacity(e: ast.expr, fn: ast.FunctionDef, nz: Normaliser | None = None) -> str:
+    """Side-neutral normal form of a capacity expression: atoms not named after their role are classified by what they are assigned."""
+    c = (nz or Normaliser(atom_hook=field_hook({}))).norm(e)
+    sub = {}
+    for at in c.atoms():
+        if re.fullmatch(r"\w+", at) and rename_sig(at) == at and not at.startswith("self"):
+            r = _sig_role(at, fn)
+            if r is not None:
+                sub[at] = Sym.atom({"N": "role_numerator", "D": "role_denominator"}[r])
+    if sub:
+        c = c.subst(sub)
+    return rename_sig(c.canon())
